@@ -421,6 +421,9 @@ def learn_expected(root: str) -> dict[int, Any]:
 
 
 # =========================================================================== client commands / status file lifecycle
+IDLE_TIMEOUT = 8      # seconds; --timeout of daemons in histories with an Idle step
+
+
 def replay_lifecycle(args: tuple[int, list[dict[str, Any]], str]) -> tuple[str | None, list[Any]]:
     """One DmypyLifecycle.tla behaviour through the real `dmypy` command line."""
     wid, hist, root = args
@@ -433,6 +436,9 @@ def replay_lifecycle(args: tuple[int, list[dict[str, Any]], str]) -> tuple[str |
         f.write("x: int = 1\n")
     pids: list[int] = []
     seen: list[Any] = []
+    # histories with an idle exit start their daemons with a short --timeout; every other history keeps the default (none)
+    idle_hist = any(e["cmd"] == "idle" for e in hist)
+    tmo = ["--timeout", str(IDLE_TIMEOUT)] if idle_hist else []
 
     def cur_pid() -> int | None:
         try:
@@ -480,14 +486,23 @@ def replay_lifecycle(args: tuple[int, list[dict[str, Any]], str]) -> tuple[str |
                     while pid_alive(pid) and time.time() - t0 < 90:
                         time.sleep(0.01)
                 rc = 0
+            elif c == "idle":
+                # the daemon's own idle exit: nothing is sent, the idle time passes
+                pid = cur_pid()
+                t0 = time.time()
+                while pid is not None and pid_alive(pid) and time.time() - t0 < 240:
+                    time.sleep(0.05)
+                if pid is not None and pid_alive(pid):
+                    return None, seen + [["idle", "inconclusive: daemon still alive after 240 s"]]
+                rc = 0
             elif c == "start":
                 for p0 in pids:
                     pid_alive(p0)          # reap whatever died
-                rc = dmypy("start", "--", "--no-error-summary")
+                rc = dmypy("start", *tmo, "--", "--no-error-summary")
             elif c == "restart":
-                rc = dmypy("restart", "--", "--no-error-summary")
+                rc = dmypy("restart", *tmo, "--", "--no-error-summary")
             elif c == "run":
-                rc = dmypy("run", "--", "--no-error-summary", "prog.py")
+                rc = dmypy("run", *tmo, "--", "--no-error-summary", "prog.py")
             elif c == "check":
                 rc = dmypy("check", "prog.py")
             else:
@@ -506,6 +521,11 @@ def replay_lifecycle(args: tuple[int, list[dict[str, Any]], str]) -> tuple[str |
             if len(live) > 1:
                 return "PROPERTY: two daemons alive for one status file after %s" % c, seen
             want = {"rc": e["rc"], "alive": e["alive"], "file": e["file"]}
+            if idle_hist and c != "idle" and want["alive"] and not got["alive"] and not got["file"]:
+                # the idle time ran out earlier than this history places it (a slow machine): the daemon's exit was
+                # orderly (no file left), the rest of the history is not comparable -- never an alarm
+                seen.append(["early-idle", "inconclusive"])
+                return None, seen
             if got != want:
                 return "command %d (%s): real %r, specification %r" % (i, c, got, want), seen
         return None, seen
@@ -679,13 +699,22 @@ def main(argv: list[str]) -> int:
         raise MachineryError("Gen DmypyLifecycle: %s %s" % (gl.violated, gl.error))
     lh = gl.json_lines("HIST")
     rnd.shuffle(lh)
+    idle_h = [x for x in lh if any(e["cmd"] == "idle" for e in x)]
+    lh = [x for x in lh if x not in idle_h]
     cheap = [x for x in lh if not any(e["cmd"] in ("run", "check") and e["rc"] == 0 for e in x)]
     costly = [x for x in lh if x not in cheap]
-    lchosen = (cheap[:24] + costly[:6]) if tier == "quick" else (cheap[:400] + costly[:120])
+    # idle histories: one Idle step each in the quick tier (each costs the idle time), any number in the thorough tier
+    idle1 = [x for x in idle_h if sum(1 for e in x if e["cmd"] == "idle") == 1]
+    lchosen = (cheap[:24] + costly[:6] + idle1[:8]) if tier == "quick" else (cheap[:400] + costly[:120] + idle_h[:96])
     lifecycle_runs = 0
+    idle_runs = idle_inconclusive = 0
     with ThreadPoolExecutor(8) as ex:
         for (bad, seen_l), hst in zip(ex.map(replay_lifecycle, [(i, hst, root) for i, hst in enumerate(lchosen)]), lchosen):
             lifecycle_runs += 1
+            if any(e["cmd"] == "idle" for e in hst):
+                idle_runs += 1
+                if any(isinstance(x[1], str) and x[1].startswith("inconclusive") for x in seen_l):
+                    idle_inconclusive += 1
             if bad:
                 v.violation("lifecycle:" + json.dumps([e["cmd"] for e in hst]), {"kind": "lifecycle", "history": hst, "observed": seen_l}, bad)
 
@@ -694,6 +723,8 @@ def main(argv: list[str]) -> int:
         "states": states, "transitions": transitions,
         "traces_validated_against_impl": framing_runs + daemon_runs + lifecycle_runs,
         "lifecycle_command_sequences_replayed": lifecycle_runs,
+        "lifecycle_sequences_with_idle_exit": idle_runs,
+        "lifecycle_idle_inconclusive": idle_inconclusive,
         "framing_behaviours_replayed": framing_runs,
         "distinct_segmentations": len(distinct_seg),
         "daemon_fault_sequences_replayed": daemon_runs,
